@@ -379,7 +379,10 @@ class Report:
         self.obligations.extend(res)
         for r in res:
             if not r["ok"]:
-                self.broken.append("theorem " + r["name"] + ": " + (r["error"] or "")[-400:])
+                err = (r["error"] or "")
+                if "makes inconsistent assumptions" in err or "Cannot find a physical path" in err or "Unable to locate library" in err:
+                    err = "not re-established: a file it depends on no longer builds (see the proof obligation named first)"
+                self.broken.append("theorem " + r["name"] + ": " + err[-400:])
     def violation(self, what, replay, found_input=True):
         self.violations.append({"what": what, "replay": replay, "found_input": found_input})
     def finish(self, checker_cmd, trusted_base, rule, extra=None):
